@@ -164,9 +164,12 @@ def c07_subsetter(ctx, repo):
     ctx.ob("SUB-order", f.where, "font.setGlyphOrder(self.new_glyph_order) after all table.subset_glyphs calls, on every path", ok, "" if ok else "a table can be subset against the new glyph order")
     # the fallthrough arm deletes the table
     dels = [n for n in walk_no_nested(f.node) if isinstance(n, ast.Delete) and norm(n.targets[0]) == "font[tag]"]
-    conds = [sorted(norm(t) + ("" if pol else "!") for t, pol in guard_conditions(d)) for d in dels]
-    want_any = ["hasattr(clazz, 'subset_glyphs')!", "self.options.passthrough_tables!", "tag.strip() in self.options.no_subset_tables!"]
-    ok = any(c == sorted(want_any) for c in conds)
+    from ..cfg import implied_conditions as _ic4
+
+    conds = [sorted(t + ("" if pol else "!") for t, pol in _ic4(g, d)) for d in dels]
+    want_any = {"hasattr(clazz, 'subset_glyphs')!", "self.options.passthrough_tables!", "tag.strip() in self.options.no_subset_tables!"}
+    # some deletion happens exactly where there is no subsetter, no passthrough and no exemption (however the chain is spelt)
+    ok = any(want_any <= set(c) and not any(x.startswith("retain") or x.startswith("not retain") for x in c) for c in conds)
     ctx.ob("SUB-order", f.where, "tables without a subsetter are deleted unless passthrough", ok, "" if ok else f"fallthrough arm changed: {conds}")
     cg = sm.func("Subsetter._closure_glyphs")
     from ..core import walk_closure
